@@ -3,6 +3,8 @@ package checks
 
 import (
 	_ "verif/mc/checks/c09"
+	_ "verif/mc/checks/c11"
+	_ "verif/mc/checks/c17"
 	_ "verif/mc/checks/c18"
 	_ "verif/mc/checks/c19"
 	_ "verif/mc/checks/c20"
